@@ -397,6 +397,9 @@ def main():
     from . import trace_drivers
 
     trace_drivers.validate(chk, tracefile)
+    from . import lifecycle
+
+    lifecycle.run(chk)  # advisory family (spec/Lifecycle.tla): initialize() / setup_logging() histories, drift only
     if t == "thorough":
         from . import repo_tests
 
